@@ -381,6 +381,10 @@ def run_entry(entry: str, content: str, scratch: str, probe: dict | None = None)
     try:
         if entry == "string:exec":
             return kernel.canon_tree(XonshParser.parse_string(content, mode="exec"))
+        if entry == "string:exec:py38":
+            # the same delivery to a caller that asked for an older grammar level (version-gated constructs are
+            # then rejected by a check that raises outside the error builder)
+            return kernel.canon_tree(XonshParser.parse_string(content, mode="exec", py_version=(3, 8)))
         if entry == "string:eval":
             return kernel.canon_tree(XonshParser.parse_string(content, mode="eval"))
         if entry == "file":
